@@ -152,7 +152,25 @@ def shrink_case(spec: CheckSpec, case: dict, lean: Lean, bad: Callable[[Outcome]
             if steps >= limit: break
     return cur
 
+def _guarded(spec: CheckSpec):
+    """`spec.run`, with one safety net: an exception that escapes a check module *from inside lenskit* (the implementation failed where the
+    module did not expect it — typically under a change to the code) is an outcome of the case, not a crash of the harness.  An exception
+    whose traceback never enters lenskit is the harness's own and propagates (exit 2)."""
+    raw = spec.run
+    def run(case, lean):
+        try:
+            return raw(case, lean)
+        except LeanError:
+            raise
+        except Exception as ex:
+            frames = [f for f in traceback.extract_tb(ex.__traceback__) if "/lenskit/" in f.filename.replace("\\", "/")]
+            if not frames: raise
+            where = f"{os.path.basename(frames[-1].filename)}:{frames[-1].name}"
+            return Outcome(False, False, ("implementation raised",), {"failed": [f"the implementation raised {type(ex).__name__} in {where}: {str(ex)[:120]}"]}, None)
+    return run
+
 def run_check(spec: CheckSpec, tier: str, seed: int, replay: str | None = None, audit: dict | None = None) -> int:
+    spec.run = _guarded(spec)
     t0 = time.time()
     rng = random.Random(seed)
     lean = Lean()
